@@ -530,7 +530,14 @@ impl<'a> StoreWorld<'a> {
                         if !was_open {
                             self.rs.store.close_replica(ns.id());
                         }
-                        self.lines.push(Line::model(format!("tputns 1 {}", honest_tok(&e)), insert_result(res)));
+                        let line = insert_result(res);
+                        if self.focus == "C07" {
+                            // specification: a validly signed remote entry is accepted whatever the capability
+                            // (it is stored or superseded, never refused for want of the write secret)
+                            let ok = line.starts_with("inserted") || line == "notinserted";
+                            self.lines.push(Line::oracle("sconst remote-entry-accepted-without-write-capability", if ok { "remote-entry-accepted-without-write-capability".to_string() } else { format!("remote-entry-refused:{line}") }));
+                        }
+                        self.lines.push(Line::model(format!("tputns 1 {}", honest_tok(&e)), line));
                     }
                     Err(_) => {
                         self.lines.push(Line::model(format!("tputns 1 {}", honest_tok(&e)), "err:not-found"));
